@@ -224,33 +224,18 @@ PENDING = 'check under construction in this session - not claimed until its rule
 
 
 # rules added after the second seeding round (DESIGN.md sections 8 and 11): appended to the level text of each property
-ADDENDA = {
-    'C01': ' R01.4: every while loop without an exit of its own changes something its test reads in each iteration (narrow non-termination rule; '
-           'termination in general is not decided).',
-    'C03': ' Also: the loops over decorator_list run to exhaustion (R03.2).',
-    'C05': ' R05.5: the names that mask inherited members are collected without a presentation (privacy) filter.',
-    'C07': ' Also R07.2: the object to move is looked up under its name in the defining module, star-import aliases are the origin module\'s own '
-           'expansion; R07.3 reports the known finding F15 (a bare name imported from the old location is not followed to the moved object).',
-    'C09': ' Three structural loss rules were added: a slot filled piecewise by two field kinds is created only while empty (R09.6), a reST directive '
-           'declaring a body reads self.content on every path (R09.7), a docutils visit method that prunes its subtree renders all of it (R09.8).',
-    'C10': ' R10.7: a module\'s own __docformat__ wins over its package\'s (which parser sees the text); R10.8: catch-all handlers hand helpers only '
-           'parameters whose every Union member the helper accepts.',
-    'C11': ' R11.3 also: everything registered in System.allobjects is reachable through contents or forced hidden; R11.5 also: linkers do not capture '
-           'the page of their object at construction, rendering through a docstring source\'s linker happens under an explicit page context, annotation '
-           'links are shortened against the page of the annotated object.',
-    'C13': ' Also: guarded cursor reads of the bracket scan use the bounds-checked index, the leading-] test does not depend on the ! test (R13.1).',
-    'C14': ' R14.6: every tag the link helpers build shows the caller\'s label; R14.4 also requires both spellings of @overload.',
-    'C15': ' R15.6 also: NUL and the wrapping quote are escaped by the str/bytes escapers and every escape reads back as the character it replaces; '
-           'R15.7: Literal[...] keeps its string arguments whatever the qualifier.',
-    'C16': ' R16.4 (provenance of the location): a report names the object\'s own source file (source_path written once, read from self), the message '
-           'is <file>:<line>: <text>, a type field keeps the line of its field. Line arithmetic is not decided.',
-    'C17': ' Also: the inventory loop skips a hidden object without ending (R17.4).',
-    'C18': ' Also: a sort key applied to a directory listing must be one-to-one on the entries (R18.2).',
-    'C19': ' Also: a pushing visit method leaves without entering the scope only through SkipNode (R19.3); _BaseVisitor.visit and .depart resolve '
-           'handler names the same way (R19.2).',
-    'C20': ' Also: every parser action contributes its config keys (R20.2); the double- and single-quote alternatives of the quoting regexes are equal '
-           'up to the quote character (R20.5, re._parser).',
-}
+def rules_as_built(p: str) -> str:
+    """The rule list of sa/rules/<p>.py (its module docstring is kept complete: tools/design_rules.py checks it against the rule ids used)."""
+    import ast as _ast, re as _re
+    doc = _ast.get_docstring(_ast.parse((HERE / 'sa' / 'rules' / f'{p.lower()}.py').read_text())) or ''
+    items = []
+    for line in doc.splitlines():
+        m = _re.match(r'\s*(R\d\d\.\d+)\s+(.*)', line)
+        if m:
+            items.append(f'{m.group(1)} {m.group(2).strip()}')
+        elif items and line.startswith('      ') and not _re.match(r'\s*(Does not decide|Not decided)', line):
+            items[-1] += ' ' + line.strip()
+    return ' Rules as built: ' + '; '.join(items) + '.' if items else ''
 
 
 def main() -> None:
@@ -267,7 +252,7 @@ def main() -> None:
                 'evidence_file': f'/verif/evidence/{p}.json',
                 'replay_cmd_template': f'./check {p} --replay {{path}}',
                 'engine': 'sa',
-                'level_claimed': {'category': 'other', 'text': c['text'] + ADDENDA.get(p, ''), 'design_ref': c['ref']},
+                'level_claimed': {'category': 'other', 'text': c['text'] + rules_as_built(p), 'design_ref': c['ref']},
                 'level_note': c['note'],
                 'technique': c['technique'],
             })
